@@ -52,7 +52,7 @@ type camConn struct {
 	mu       sync.Mutex
 	reqs     []seenReq
 	cseqs    []string
-	playedAt int // number of requests received when PLAY was answered with success
+	playedAt int           // number of requests received when PLAY was answered with success
 	peerGone chan struct{} // closed when the client's side of the connection is seen closed (EOF / error on read)
 	played   chan struct{} // closed when a PLAY was answered with success
 	dead     chan struct{} // closed when the camera itself closed the connection
